@@ -425,13 +425,13 @@ pub fn run(ctx: &Ctx) -> i32 {
         property: "C16",
         tier,
         seed: ctx.seed,
-        scenarios: tier.pick(640, 20_000),
+        scenarios: if super::miri() { 2 } else { tier.pick(640, 20_000) },
         threads: super::threads(),
         watchdog: Duration::from_secs(300),
         budget: Duration::from_secs(tier.pick(90, 900)),
         only: ctx.only,
     };
-    let tables = tier.pick(40, 100);
+    let tables = if super::miri() { 4 } else { tier.pick(40, 100) };
     let mut summary = runner::run_scenarios(&cfg, move |i, s| scenario(i, s, tables));
     let sig_keys: Vec<String> = summary.counters.keys().filter(|k| k.starts_with("sig:")).cloned().collect();
     for k in sig_keys {
